@@ -12,6 +12,7 @@ API
   QUICK_GIDS                    the 6 geometry ids of the quick tiers (all radii, ratios, spacings, both thicknesses,
                                 leg ranges, hands and all three constructors occur)
   geo(gid)                      Geo by id
+  seed_geo(seed)                the one seed-generic geometry 'seedgeo<seed>' (IK / Jacobian clauses only, never in the FK lattice)
   BASES, base_T(name, seed)     "I" identity (constructed there), "B1" one fixed generic pose (constructed at the
                                 identity, then sp.move(B1)), "BS" seed-generic pose (handed to the constructor)
   SPINS, spin_arg(name)         "s0" none, "s0.4" spinCustom(0.4), "s-60d" spinCustom(-60, True)
@@ -116,7 +117,24 @@ QUICK_GIDS = ("r0.9-q0.3-s9x25-t0.1-m0.8-k2-hp-json",
               "r0.9-q0.6-s5x5-t0-m0.8-k1.5-hp-make")
 
 
+def seed_geo(seed):
+    """The one seed-generic geometry (gid 'seedgeo<seed>'): parameters drawn inside the family's ranges, rejected until the
+    nominal neutral height is real; built through newSP.  Never part of the fixed FK lattice."""
+    r = palettes.seed_rng(seed, 93)
+    for _ in range(200):
+        rb = float(r.uniform(0.2, 2.0))
+        q = float(r.uniform(0.3, 1.0))
+        bs, ts = float(r.uniform(5, 40)), float(r.uniform(5, 40))
+        g = Geo("seedgeo%d" % seed, -1, rb, q, bs, ts, float(r.uniform(0, 0.1)), float(r.uniform(0.8, 1.5)), float(r.uniform(1.5, 2.0)),
+                1 if r.uniform() < 0.5 else -1, "new")
+        if np.isfinite(nominal(g)["h"]):
+            return g
+    raise RuntimeError("no feasible seed geometry")
+
+
 def geo(gid):
+    if gid.startswith("seedgeo"):
+        return seed_geo(int(gid[7:]))
     for g in family():
         if g.gid == gid:
             return g
